@@ -31,17 +31,17 @@ CLAIMS = {
          "Generic payloads use the WriteToHeader contract (writer := old ++ enc(x)) that C20.E establishes for every impl. Trusted: std axioms (Vec push/extend/reserve/with_capacity, Option::take).", TECH_SUM + "; loop widening + idiom rule; frame (who-may-write) checks"),
  "C13": ("proof", "For each accepted control combination the generic accepted header is parsed by the parser summary, its views computed by the accessor summaries, and the fixed rebuild histories (raw views; decoded address value) composed from the builder transformers; every path must be Ok and normalise to the original bytes; item re-encoding equals the slice it was read from.", "5/C13",
          "Trusted: std axioms. The 'decoded items' clause for whole sections is the induction over C11.R tiling + C13.I.", "composition of MIR value-flow summaries along a fixed call history, compared by sequence normalisation"),
- "C11": ("proof", "The loop-free Iterator::next step is compared with the reference TLV step (value and cursor update) on its four-way partition; ranking/typestate facts (error parks the cursor, item advances by >= 3 and stays inside) are entailed by the extracted guards; constructors and field frames checked.", "5/C11",
+ "C11": ("proof", "The loop-free Iterator::next step is compared with the reference TLV step (value and cursor update) on its four-way partition; ranking/typestate facts (error parks the cursor, item advances by >= 3 and stays inside) are entailed by the extracted guards; constructors and field frames checked. Provided Iterator methods overridden for TypeLengthValues (count, last) must agree with next on the base cases with at most one item (C11.O, a necessary condition); every panic obligation of next is discharged.", "5/C11",
          "Trusted: std axioms (slice index/len, from_be_bytes). Induction over calls is the standard argument from the step relation (DESIGN.md C11.R).", TECH_SUM + "; who-may-write query on private fields"),
- "C12": ("other", "v2: single-corruption rows of the decision table resolve to the element's variant carrying the offending value, all terminal; decided for every byte string. v1: role attribution is structural only.", "5/C12",
+ "C12": ("other", "v2: single-corruption rows of the decision table resolve to the element's variant carrying the offending value, all terminal; decided for every byte string. v1: on every path that returns Invalid<field k> the validity of field k is unsatisfiable and the validity of every earlier field is entailed (token predicates); FromStr reports exactly try_from's error; entry points discharge all panic obligations.", "5/C12",
          "Not decided (v1): which check a corrupted string reaches first. Trusted: std axioms.", TECH_SUM),
  "C17": ("proof", "Incomplete/Partial payload terms and the exact row regions in which they are produced are compared with the reference; guards read no byte at index >= 16, so appended bytes move a scenario only along the length axis.", "5/C17",
          "Trusted: std axioms; the accepting row for len = 16+L is the same table as C02.", TECH_SUM + "; read-set scan of guards"),
- "C03": ("proof", "Every MIR Assert terminator and every panicking std callee on any path of the in-scope entry points and accessors is an inequality obligation that must be entailed by its dominating guards (Fourier-Motzkin); str index bounds must be provable char boundaries; loops must advance a finite iterator; no unknown callee; thorough tier repeats it for the release configuration.", "5/C03",
+ "C03": ("proof", "Every MIR Assert terminator and every panicking std callee on any path of the in-scope entry points and accessors is an inequality obligation that must be entailed by its dominating guards (Fourier-Motzkin); str index bounds must be provable char boundaries; loops must advance a finite iterator; no unknown callee; thorough tier repeats it for the release configuration. Scope completeness (C03.S): every hand-written function of the parsing / model / error modules is analysed, by the listed entries or on its own (for those extra functions only obligations free of loop-carried values are judged).", "5/C03",
          "INV2 of v2 headers is proved at construction; INV1 of v1 headers is assumed here (its derivation is C01.S). Trusted: std functions with an axiom are total apart from their stated panic conditions; allocation failure / stack exhaustion out of scope.", "panic-obligation extraction from MIR + linear entailment under dominating guards; loop-idiom and call-graph rules"),
- "C04": ("other", "v2 and auto-detector decided for every input (monotone length guards, read-set inside [0,16+L), header = input[..16+L]); v1 clause structural (window cut at first CR + 2, CRLF established before Ok).", "5/C04",
+ "C04": ("other", "v2 and auto-detector decided for every input (monotone length guards, read-set inside [0,16+L), header = input[..16+L]); v1 clause structural (window cut at first CR + 2, CRLF established before Ok). C04.L: len() / as_bytes() / length() of an accepted v2 header are the reported header (16 + declared length).", "5/C04",
          "The v1 part rests on rules C01.W/C01.S (token-layout axiom). Trusted: std axioms.", TECH_SUM + "; guard monotonicity and read-set scans"),
- "C14": ("proof", "INV2 is proved at every accepting outcome of the v2 parser; under INV2 and per address variant each accessor summary must equal the reference view (shared split term, sizes, family images).", "5/C14",
+ "C14": ("proof", "INV2 is proved at every accepting outcome of the v2 parser; under INV2 and per address variant each accessor summary must equal the reference view (shared split term, sizes, family images). C14.D: the accepting rows of the v2 decision table (decoded address value = decoding of the address view) are evaluated here too; accessor panic obligations are discharged under INV2.", "5/C14",
          "Trusted: std axioms (Cow deref, slice index/len, min). Headers built by hand from public fields are outside 'accepted headers'.", "MIR value-flow summaries under a proved type invariant compared with reference views"),
  "C20": ("proof", "For each of the 19 WriteToHeader impls every Ok outcome must leave writer = old ++ E and return Ok(len E) for the reference encoding E, no Err outcome may be possible when the value is within its limit and the writer has room, over-limit values are refused with nothing written; Writer::write / finish / From / flush and the to_bytes default are compared with their references.", "5/C20",
          "Reading of 'below its size limit': the writer has room for the whole encoding; refusal between segments near the 65551-byte guard is not spoken to. Trusted: std axioms (write_all over Writer::write, to_be_bytes, octets).", TECH_SUM),
